@@ -38,7 +38,7 @@ DOCUMENTED = ['application/json', 'application/json-rpc', 'application/jsonreque
 FLOORS = {'*': {**{f'{i}:{t}': 10 for i in INTEGRATIONS for t in DOCUMENTED},
                 **{f'{i}:{t}+params': 10 for i in INTEGRATIONS for t in DOCUMENTED},
                 **{f'{i}:refused-type': 30 for i in INTEGRATIONS}, **{f'{i}:empty-reply': 5 for i in INTEGRATIONS},
-                'status:non-200': 50, 'endpoint:added': 50, 'cross-integration-comparisons': 200, 'non-utf8-bodies': 10}}
+                'status:non-200': 50, 'endpoint:added': 50, 'endpoint:added-sub': 50, 'charset:non-utf8-declared': 30, 'cross-integration-comparisons': 200, 'non-utf8-bodies': 10}}
 
 STATUS_TABLE = {-32700: 400, -32600: 400, -32601: 404, -32602: 422, -32000: 500, -32603: 500}
 
@@ -75,7 +75,7 @@ class App:
         self.log = world.Log()
         is_async = integration == 'aiohttp'
         self.twins = {}
-        for name in ('root', 'added'):
+        for name in ('root', 'added', 'added-sub'):
             t = world.World(is_async, 3)
             t.dispatcher.add(self._which(name, is_async), 'which')
             self.twins[name] = t
@@ -88,6 +88,11 @@ class App:
             d2 = self.app.add_endpoint('/sub', max_batch_size=3)
             d2.add_methods(world.build_registry(self.log, True))
             d2.add(self._which('added', True), 'which')
+            from aiohttp import web as _web
+            d4 = self.app.add_endpoint('/viasub', subapp=_web.Application(), max_batch_size=3)
+            d4.add_methods(world.build_registry(self.log, True))
+            d4.add(self._which('added-sub', True), 'which')
+            self.paths['added-sub'] = (root.rstrip('/') + '/viasub')
             d3 = self.app.add_endpoint('/last', max_batch_size=3)
             d3.add(self._which('last', True), 'which')
             self.paths['added'] = (root.rstrip('/') + '/sub')
@@ -101,6 +106,10 @@ class App:
             d2 = self.rpc.add_endpoint('/sub', max_batch_size=3)
             d2.add_methods(world.build_registry(self.log, False))
             d2.add(self._which('added', False), 'which')
+            d4 = self.rpc.add_endpoint('/viasub', blueprint=flask.Blueprint('viasub', 'vmon_c18'), max_batch_size=3)
+            d4.add_methods(world.build_registry(self.log, False))
+            d4.add(self._which('added-sub', False), 'which')
+            self.paths['added-sub'] = (root.rstrip('/') + '/viasub')
             d3 = self.rpc.add_endpoint('/last', max_batch_size=3)
             d3.add(self._which('last', False), 'which')
             self.paths['added'] = (root.rstrip('/') + '/sub')
@@ -166,6 +175,17 @@ def get_app(integration, root, status_kind):
     return _APPS[key]
 
 
+def declared_charset(mt):
+    """the charset parameter of a Content-Type value (parameter names are case-insensitive, values may be quoted)"""
+    if mt is None:
+        return 'utf-8'
+    for part in mt.split(';')[1:]:
+        name, _, value = part.partition('=')
+        if name.strip().lower() == 'charset':
+            return value.strip().strip('"').lower() or 'utf-8'
+    return 'utf-8'
+
+
 def media_class(mt):
     """'documented' | 'documented+params' | 'case-variant' | 'other' | 'missing'"""
     if mt is None:
@@ -180,14 +200,17 @@ def media_class(mt):
 
 def run_post(ctx, root, status_kind, path_key, media_type, body_hex, family):
     body = bytes.fromhex(body_hex)
+    charset = declared_charset(media_type)
+    if charset not in ('utf-8', 'utf8'):
+        ctx.hit('charset:non-utf8-declared')
     try:
-        text = body.decode('utf-8')
-    except UnicodeDecodeError:
+        text = body.decode(charset)
+    except (UnicodeDecodeError, LookupError):
         text = None
     mclass, main = media_class(media_type)
     replies = {}
     for integration in INTEGRATIONS:
-        if integration == 'werkzeug' and (status_kind != 'default' or path_key == 'added'):
+        if integration == 'werkzeug' and (status_kind != 'default' or path_key != 'root'):
             continue
         app = get_app(integration, root, status_kind)
         rep = app.post(path_key, media_type, body)
@@ -196,8 +219,8 @@ def run_post(ctx, root, status_kind, path_key, media_type, body_hex, family):
         wit = dict(integration=integration, root_path=root, status_function=status_kind, endpoint=path_key, media_type=media_type,
                    body=text if text is not None else body_hex, reply=list(rep[:3]) + ([rep[3].decode('utf-8', 'replace')] if rep[0] == 'reply' else []),
                    executions=list(app.log.calls), status_function_arguments=list(app.status.args))
-        if path_key == 'added':
-            ctx.hit('endpoint:added')
+        if path_key != 'root':
+            ctx.hit('endpoint:' + path_key)
         if rep[0] == 'exc':
             ctx.violation(f'exception-escapes-the-framework-entry-point:{type(rep[1]).__name__}:{mclass}', fam, cls, **wit)
             continue
@@ -226,7 +249,7 @@ def run_post(ctx, root, status_kind, path_key, media_type, body_hex, family):
                 ctx.ok(fam + ':non-utf8', cls, sample=wit)
             continue
         # ---- the twin dispatcher's verdict on the same text
-        t = serverside.observe(app.twins['added' if path_key == 'added' and integration != 'werkzeug' else 'root'], text)
+        t = serverside.observe(app.twins[path_key if integration != 'werkzeug' else 'root'], text)
         if status == 415:
             ctx.violation(f'documented-media-type-refused:{main}' + (':with-parameters' if mclass == 'documented+params' else ''), fam, cls, **wit)
             continue
@@ -335,6 +358,11 @@ def gen(ctx):
     full = ctx.thorough
     bs = bodies(rng, full)
     k = 0
+    for mt, b in charset_cases(rng, full):
+        k += 1
+        if full or k % 3 == 0:
+            yield 'post', dict(root=('/rpc', '/api')[k % 2], status_kind=('default', 'table')[k % 2],
+                               path_key=('root', 'added', 'added-sub')[k % 3], media_type=mt, body_hex=b.hex(), family='declared-charset')
     for root in ('/rpc', '/api', '/api/v1/'):
         for status_kind in ('default', 'any-error-400', 'table'):
             for fam, b in bs:
@@ -346,8 +374,25 @@ def gen(ctx):
                         pick = k % 2 == 0 or cls_.startswith('documented') or fam == 'non-utf8'
                         if not pick:
                             continue
-                    yield 'post', dict(root=root, status_kind=status_kind, path_key='added' if k % 4 == 0 else 'root',
+                    yield 'post', dict(root=root, status_kind=status_kind, path_key=('added', 'root', 'added-sub', 'root', 'root')[k % 5],
                                        media_type=mt, body_hex=b.hex(), family=fam)
+
+
+def charset_cases(rng, full):
+    """(media type, body bytes) where the body is encoded in the charset the header declares"""
+    texts = [json.dumps(d, ensure_ascii=False) for d in (
+        docs.obj(id=1, method='echo', params=['é\u20ac']), docs.obj(id='w', method='which'), docs.obj(method='ok', params=['n']),
+        [docs.obj(id=1, method='ok', params=['ü']), docs.obj(id=2, method='nope')], docs.obj(id=3, method='ok', params={'zz': 'ß'}))]
+    forms = ['{mt}; charset={cs}', '{mt}; Charset={cs}', '{mt};CHARSET="{cs}"', '{mt} ; charset = {cs}'.replace(' = ', '=')]
+    for cs in ('utf-16', 'latin-1', 'utf-8', 'UTF-8', 'cp1252'):
+        for t in texts:
+            try:
+                b = t.encode(cs)
+            except UnicodeEncodeError:
+                continue
+            for mt in DOCUMENTED:
+                for f in forms:
+                    yield f.format(mt=mt, cs=cs), b
 
 
 KINDS = {'post': run_post}
